@@ -15,53 +15,54 @@ import (
 )
 
 type Report struct {
-	Harness     string
-	Paths       int
-	Done        int
-	Dropped     int
-	Faults      int
-	Truncated   int
-	Cut         int
-	CutMsgs     map[string]int
-	Asserts, AssertQueries int
+	Harness                    string
+	Paths                      int
+	Done                       int
+	Dropped                    int
+	Faults                     int
+	Truncated                  int
+	Cut                        int
+	CutMsgs                    map[string]int
+	Asserts, AssertQueries     int
 	CrossChecked, CrossUnknown int
-	Unsupported int
-	UnsupportedMsgs map[string]int
-	TruncatedMsgs   map[string]int
-	Violations  []*Violation // deduplicated
-	ViolationCount int
-	Reached     map[string]int
-	Fns         map[string]bool
-	Stubs       map[string]bool
-	Bounds      map[string]int
-	Decisions   int
-	DecisionKinds map[string]int
-	Queries     int
-	NSat, NUnsat, NUnknown int
-	SolverErrors []string
-	SolverS     float64
-	WallS       float64
-	Steps       int64
-	MaxPC       int
-	MaxVars     int
-	Samples     []map[string]any
-	UnknownBranches int
-	FloatBranches int
-	Aborted     string
+	Unsupported                int
+	UnsupportedMsgs            map[string]int
+	TruncatedMsgs              map[string]int
+	Violations                 []*Violation // deduplicated
+	ViolationCount             int
+	Reached                    map[string]int
+	Fns                        map[string]bool
+	Stubs                      map[string]bool
+	Bounds                     map[string]int
+	Decisions                  int
+	DecisionKinds              map[string]int
+	Queries                    int
+	NSat, NUnsat, NUnknown     int
+	SolverErrors               []string
+	SolverS                    float64
+	WallS                      float64
+	Steps                      int64
+	MaxPC                      int
+	MaxVars                    int
+	Samples                    []map[string]any
+	UnknownBranches            int
+	FloatBranches              int
+	Aborted                    string
 }
 
 type Explorer struct {
-	P         *Program
-	Cfg       *Config
-	Entry     *ssa.Function
-	Workers   int
-	SolverKind string
-	TimeoutMS int
-	MaxPaths  int
-	Deadline  time.Time
+	P             *Program
+	Cfg           *Config
+	Entry         *ssa.Function
+	Workers       int
+	SolverKind    string
+	TimeoutMS     int
+	MaxPaths      int
+	Deadline      time.Time
 	MaxViolations int
-	Seed      int
-	CrossSolver string // e.g. "cvc5": second opinion on every assertion batch
+	Seed          int
+	CrossSolver   string // e.g. "cvc5": second opinion on every assertion batch
+	CrossEvery    int    // cross-check one assertion batch in CrossEvery (0/1 = all), chosen by a path-independent counter
 }
 
 func (e *Explorer) Run() *Report {
@@ -110,6 +111,7 @@ func (e *Explorer) Run() *Report {
 				mu.Unlock()
 				solver.Close()
 			}()
+			crossCtr := 0 // per worker, carried across paths
 			var solver2 *smt.Solver
 			if e.CrossSolver != "" {
 				if s2, err := smt.NewSolver(e.CrossSolver, e.TimeoutMS); err == nil {
@@ -135,7 +137,10 @@ func (e *Explorer) Run() *Report {
 				cfg := *e.Cfg
 				it := NewInterp(e.P, &cfg, solver, prefix)
 				it.Solver2 = solver2
+				it.CrossEvery = e.CrossEvery
+				it.crossCtr = crossCtr
 				res := it.Run(e.Entry)
+				crossCtr = it.crossCtr
 				var sample map[string]any
 				mu.Lock()
 				needSample := false
